@@ -34,8 +34,27 @@ type VerifRule struct {
 	Action string `json:"action"` // fail | ignore | content | stick
 	Errno  string `json:"errno,omitempty"`
 	Raw    string `json:"raw,omitempty"` // content for action "content"
-	Val    int    `json:"val,omitempty"` // value stored instead for action "stick"
+	Val    int    `json:"val,omitempty"` // value stored instead for action "stick"; number of levels for action "quant"
 	Count  int    `json:"-"`
+}
+
+// verifQuant maps a value to the nearest of n evenly spaced levels in 0..255 (idempotent).
+func verifQuant(v int, n int) int {
+	if n < 2 {
+		return v
+	}
+	best, bd := 0, 1<<30
+	for i := 0; i < n; i++ {
+		l := i * 255 / (n - 1)
+		d := l - v
+		if d < 0 {
+			d = -d
+		}
+		if d < bd {
+			bd, best = d, l
+		}
+	}
+	return best
 }
 
 // VerifPlant computes the content of an RPM input file from the PWM file.
@@ -213,6 +232,10 @@ func (d *VerifDriverT) write(value int, path string, atomicWrite bool) (err erro
 		if rule != nil && rule.Action == "stick" {
 			store = rule.Val
 			ev.Action = "stick"
+		}
+		if rule != nil && rule.Action == "quant" {
+			store = verifQuant(value, rule.Val)
+			ev.Action = "quant"
 		}
 		if _, ok := d.Mem[path]; ok {
 			d.Mem[path] = strconv.Itoa(store)
